@@ -670,6 +670,9 @@ def gen_pix_empty_compound(rng, wd, depth):
     return d
 
 
+NONDEG_CENTRES = False     # set by C07: sky centres stored in hours / radians (see P below)
+
+
 def build_sky(d, frame):
     import astropy.units as u
     from astropy.coordinates import Angle, SkyCoord
@@ -682,7 +685,22 @@ def build_sky(d, frame):
                                  meta=None if d['meta_arg'] is None else make_meta(d['meta_arg']),
                                  visual=None if d['visual_arg'] is None else make_visual(d['visual_arg']))
     frame = make_frame(d.get('frame'), frame)
-    P = lambda p: SkyCoord(p[0] * u.deg, p[1] * u.deg, frame=frame)
+    def P(p):
+        # the centre is STORED in other angular units a quarter of the time each (hours / degrees as a sexagesimal
+        # catalogue gives them, or radians): what a conversion reads from it must not assume degrees
+        # (C07 only - NONDEG_CENTRES - and only when the stored value converts back to exactly the same degrees, so
+        # that the model and the code see one centre)
+        import zlib
+        sel = zlib.crc32(repr((p[0], p[1])).encode()) % 4 if NONDEG_CENTRES else 0
+        if sel == 1:
+            lon = (p[0] * u.deg).to(u.hourangle)
+            if lon.to_value(u.deg) == p[0]:
+                return SkyCoord(lon, p[1] * u.deg, frame=frame)
+        if sel == 2:
+            lon, lat = (p[0] * u.deg).to(u.rad), (p[1] * u.deg).to(u.rad)
+            if lon.to_value(u.deg) == p[0] and lat.to_value(u.deg) == p[1]:
+                return SkyCoord(lon, lat, frame=frame)
+        return SkyCoord(p[0] * u.deg, p[1] * u.deg, frame=frame)
     Q = lambda q: Angle(q[0], q[1])
     m, v = make_meta(d['meta']), make_visual(d['visual'])
     if k == 'circle':
